@@ -1815,9 +1815,11 @@ func (g *vcgen) builtin(v ssa.Value, b *ssa.Builtin, c *ssa.CallCommon, args []s
 func (g *vcgen) chanSend(ch, x ssa.Value) {
 	g.val(ch)
 	g.val(x)
+	g.emitChanEvents("send", ch, "true")
 }
 
 func (g *vcgen) chanRecv(x *ssa.UnOp) {
+	g.emitChanEvents("recv", x.X, "true")
 	if x.CommaOk {
 		et := x.X.Type().Underlying().(*types.Chan).Elem()
 		v := g.freshOfType("recv", et)
@@ -1838,6 +1840,13 @@ func (g *vcgen) selectOp(x *ssa.Select) {
 		g.assume(fmt.Sprintf("(and (<= (- 1) %s) (< %s %d))", idx, idx, n))
 	}
 	res := []string{idx, g.freshConst("sel.ok", "Bool")}
+	for i, st := range x.States {
+		kind := "recv"
+		if st.Dir == types.SendOnly {
+			kind = "send"
+		}
+		g.emitChanEvents(kind, st.Chan, fmt.Sprintf("(= %s %d)", idx, i)) // the case that was chosen
+	}
 	for _, st := range x.States {
 		if st.Dir == types.RecvOnly {
 			et := st.Chan.Type().Underlying().(*types.Chan).Elem()
@@ -1987,11 +1996,72 @@ func (e *Engine) eventsFor(c *ssa.CallCommon) []*EventDecl {
 	sort.Strings(names)
 	for _, n := range names {
 		ev := e.DB.Events[n]
+		if ev.Chan != "" {
+			continue
+		}
 		if ev.Callee == name || strings.HasSuffix(name, "."+ev.Callee) || strings.HasSuffix(name, "/"+ev.Callee) {
 			out = append(out, ev)
 		}
 	}
 	return out
+}
+
+// chanFieldKey: the struct field a channel value was loaded from ("pkgpath.Type.field"), or ""
+func chanFieldKey(ch ssa.Value) string {
+	for {
+		switch x := ch.(type) {
+		case *ssa.ChangeType:
+			ch = x.X
+			continue
+		case *ssa.UnOp:
+			if x.Op == token.MUL {
+				if fa, ok := x.X.(*ssa.FieldAddr); ok {
+					st := fa.X.Type().Underlying().(*types.Pointer).Elem()
+					return typeName(st) + "." + st.Underlying().(*types.Struct).Field(fa.Field).Name()
+				}
+			}
+		case *ssa.Field:
+			st := x.X.Type()
+			return typeName(st) + "." + st.Underlying().(*types.Struct).Field(x.Field).Name()
+		}
+		return ""
+	}
+}
+
+func (e *Engine) chanEventsFor(kind string, ch ssa.Value) []*EventDecl {
+	key := chanFieldKey(ch)
+	if key == "" {
+		return nil
+	}
+	var names []string
+	for n := range e.DB.Events {
+		names = append(names, n)
+	}
+	sort.Strings(names)
+	var out []*EventDecl
+	for _, n := range names {
+		ev := e.DB.Events[n]
+		if ev.Chan == kind && (ev.Callee == key || strings.HasSuffix(key, "."+ev.Callee) || strings.HasSuffix(key, "/"+ev.Callee)) {
+			out = append(out, ev)
+		}
+	}
+	return out
+}
+
+// emitChanEvents counts a channel operation (under condition cond) for every event declared on that channel field
+func (g *vcgen) emitChanEvents(kind string, ch ssa.Value, cond string) {
+	for _, ev := range g.eng.chanEventsFor(kind, ch) {
+		g.eventVars(ev.Name)
+		now := g.get(g.st, "G.now")
+		cnt := g.get(g.st, "G.cnt."+ev.Name)
+		first := g.get(g.st, "G.first."+ev.Name)
+		last := g.get(g.st, "G.last."+ev.Name)
+		g.set("G.now", fmt.Sprintf("(+ %s 1)", now))
+		nn := g.get(g.st, "G.now")
+		g.set("G.cnt."+ev.Name, fmt.Sprintf("(ite %s (+ %s 1) %s)", cond, cnt, cnt))
+		g.set("G.first."+ev.Name, fmt.Sprintf("(ite (and %s (= %s %s)) %s %s)", cond, cnt, g.get(g.old0, "G.cnt."+ev.Name), nn, first))
+		g.set("G.last."+ev.Name, fmt.Sprintf("(ite %s %s %s)", cond, nn, last))
+	}
 }
 
 type eventSig struct {
